@@ -232,9 +232,10 @@ class Engine(ExprMixin, CallMixin, StmtMixin):
                 if not (extra and c.params[nm] is T.NONE):
                     raise SpecError(f"{c.key}: contract parameter {nm!r} is not a parameter of the real function")
             for nm in extra:
-                # a parameter the contract does not know: bound to an opaque None-typed value (its use in the body
-                # is then outside the subset and reported as such), so that a changed signature is not a checker error
-                c.params[nm] = T.NONE
+                # a parameter the contract does not know (changed signature, or *exc spelled out as exc_type, exc_value,
+                # traceback): an arbitrary value that may or may not be None, so a test `x is None` splits into both
+                # branches; any other use of it is outside the subset and reported as such
+                c.params[nm] = T.Opt(T.Atom("Unknown"))
             for nm in gone:
                 del c.params[nm]
         for nm, pty in list(c.params.items()) + list(c.captures.items()) + list(c.ghost_locals.items()):
